@@ -1,7 +1,8 @@
 ---- MODULE Obs_Processor ----
 (* Observation layer: no model actions.  State is accumulated from the calls the real Run loop  *)
-(* made on the harness fakes (sink writes, checkpoint commits, injected failures, end of cycle); *)
-(* the C33 predicates are the ProcessorProps definitions instantiated with these values.        *)
+(* made on the harness fakes (sink writes, checkpoint commits, injected failures, end of cycle   *)
+(* with the partition whose lease the loop held); the C33 predicates are the ProcessorProps      *)
+(* definitions instantiated with these values.  Partition p is index p + 1 of the sequences.     *)
 EXTENDS Integers, Sequences, FiniteSets, TLC, Json
 TraceLog == ndJsonDeserialize("trace.ndjson")
 Range(s) == {s[i] : i \in DOMAIN s}
@@ -10,18 +11,21 @@ VARIABLES l, all, sink, ckpt, cycFaults, listed, cleanDone,
           viol
 ovars == <<l, all, sink, ckpt, cycFaults, listed, cleanDone, bad, viol>>
 P(a, s, c, d) == INSTANCE ProcessorProps WITH all <- a, sink <- s, ckpt <- c, cleanDone <- d
-OInit == l = 0 /\ all = {} /\ sink = {} /\ ckpt = -1 /\ cycFaults = 0 /\ listed = FALSE /\ cleanDone = FALSE /\ bad = {} /\ viol = {}
-Failed(e) == e.ev \in {"List", "Load", "Decode", "Lfs", "Write", "Commit"} /\ ~e.ok
+OInit == l = 0 /\ all = <<>> /\ sink = <<>> /\ ckpt = <<>> /\ cycFaults = 0 /\ listed = FALSE /\ cleanDone = {} /\ bad = {} /\ viol = {}
+Failed(e) == e.ev \in {"List", "Claim", "Load", "Decode", "Lfs", "Write", "Commit"} /\ ~e.ok
 Step ==
   /\ l < Len(TraceLog) /\ l' = l + 1
   /\ LET e == TraceLog[l + 1] IN
-     /\ all' = IF e.ev = "Reset" THEN Range(e.all) ELSE all
-     /\ sink' = IF e.ev = "Reset" THEN {} ELSE IF e.ev = "Write" /\ e.ok THEN sink \cup Range(e.offs) ELSE sink
-     /\ ckpt' = IF e.ev = "Reset" THEN -1 ELSE IF e.ev = "Commit" /\ e.ok THEN e.off ELSE ckpt
+     /\ all' = IF e.ev = "Reset" THEN [i \in DOMAIN e.all |-> Range(e.all[i])] ELSE all
+     /\ sink' = IF e.ev = "Reset" THEN [i \in DOMAIN e.all |-> {}]
+                ELSE IF e.ev = "Write" /\ e.ok THEN [sink EXCEPT ![e.p + 1] = @ \cup Range(e.offs)] ELSE sink
+     /\ ckpt' = IF e.ev = "Reset" THEN [i \in DOMAIN e.all |-> -1]
+                ELSE IF e.ev = "Commit" /\ e.ok THEN [ckpt EXCEPT ![e.p + 1] = e.off] ELSE ckpt
      /\ listed' = IF e.ev \in {"Reset", "CycleEnd"} THEN FALSE ELSE IF e.ev = "List" THEN TRUE ELSE listed
      /\ cycFaults' = IF e.ev \in {"Reset", "CycleEnd"} THEN 0 ELSE IF Failed(e) THEN cycFaults + 1 ELSE cycFaults
-     /\ cleanDone' = IF e.ev = "Reset" THEN FALSE
-                     ELSE IF e.ev = "CycleEnd" THEN (cleanDone \/ (listed /\ cycFaults = 0)) ELSE cleanDone
+     /\ cleanDone' = IF e.ev = "Reset" THEN {}
+                     ELSE IF e.ev = "CycleEnd" /\ listed /\ cycFaults = 0 /\ e.lease >= 0 THEN cleanDone \cup {e.lease + 1}
+                     ELSE cleanDone
      /\ LET now == (IF P(all', sink', ckpt', cleanDone')!C33_CheckpointSafe THEN {} ELSE {"C33_CheckpointSafe"}) \cup
                    (IF P(all', sink', ckpt', cleanDone')!C33_CleanCycleDelivers THEN {} ELSE {"C33_CleanCycleDelivers"})
         IN /\ bad' = IF e.ev = "Reset" THEN {} ELSE bad \cup now
